@@ -88,14 +88,18 @@ def fixedCandidate (cfg : SubCfg) (xs : List Int) (bps baseline : Nat) (log : Li
         some (some (.fixed (xs.take k) res bps), log)
       else some (none, log)
 
-/-- `estimated_qlpc`. -/
+/-- `estimated_qlpc`: `none` = log-shape mismatch or a panic site; `some (none, _)` = `compute_error`
+reported an error value that is not a FLAC residual, the candidate is dropped (`encode_residual` is not
+called). -/
 def lpcCandidate (cfg : SubCfg) (xs : List Int) (bps : Nat) (log : List OEvent) :
-    Option (SubFrame × List OEvent) :=
+    Option (Option SubFrame × List OEvent) :=
   match log with
-  | .qlpc coefs shift precision :: log => do
-    let errors ← computeError coefs shift.toNat xs
-    let res ← encodeResidual cfg.maxP errors coefs.length
-    some (.lpc (xs.take coefs.length) coefs shift precision res bps, log)
+  | .qlpc coefs shift precision :: log =>
+    (computeError coefs shift.toNat xs).bind fun r =>
+      if r.2 then
+        (encodeResidual cfg.maxP r.1 coefs.length).map fun res =>
+          (some (.lpc (xs.take coefs.length) coefs shift precision res bps), log)
+      else some (none, log)
   | _ => none
 
 /-- Keeps a candidate only if its reported size is strictly below `limit`
@@ -120,7 +124,7 @@ def fixedStage (cfg : SubCfg) (xs : List Int) (bps baseline : Nat) (log : List O
 def lpcStage (cfg : SubCfg) (xs : List Int) (bps limit : Nat) (log : List OEvent) :
     Option (Option SubFrame × List OEvent) :=
   if !(decide (xs.length < minBlockForPrediction)) && cfg.useLpc then
-    (lpcCandidate cfg xs bps log).map fun (c, log) => (keepBelow limit (some c), log)
+    (lpcCandidate cfg xs bps log).map fun (c, log) => (keepBelow limit c, log)
   else some (none, log)
 
 /-- `encode_subframe`. -/
